@@ -90,6 +90,11 @@ func runLedger(j Job) *Result {
 			if len(w.C.Panics) > 0 {
 				p := w.C.Panics[len(w.C.Panics)-1]
 				res.Notes = append(res.Notes, fmt.Sprintf("%s halted in %s: %s", hist, p.Phase, p.Value))
+				res.Counters["dead:"+p.Phase+":"+trunc80(p.Value)]++
+			} else if w.C.ValSetErr != nil {
+				res.Counters["dead:validator-set-would-be-empty"]++
+			} else {
+				res.Counters["dead:other"]++
 			}
 		}
 		for _, mp := range w.MonitorPanics {
